@@ -32,7 +32,7 @@ ANCHORS = ["openfisca_core/simulations/simulation_builder.py", "openfisca_core/p
            "openfisca_core/populations/population.py", "openfisca_core/populations/_core_population.py",
            "openfisca_core/simulations/simulation.py", "openfisca_core/holders/holder.py"]
 RULE = ("random rule systems (3-8 variables over the expression language of coq/model/Engine.v, group operations "
-        "sum/any/all/nb_persons/project with and without roles, dated formulas, ADD/DIVIDE dependencies, parameters) "
+        "sum/any/all/nb_persons/project with and without roles, value_from_person with the unique role, dated formulas, ADD/DIVIDE dependencies, parameters) "
         "compiled to real Variable subclasses; two random situations (1-5 persons, 1-4 households each, member-less "
         "households leading/middle/trailing), inputs for the same keys in both, one request list; an interleaving of "
         "persons and one of groups (blocks, reversed blocks, order-preserving, arbitrary shuffle) and a permutation of "
@@ -213,9 +213,9 @@ def situation_json(case, pop, inputs):
     pid = [f"person_{chr(97 + (7 * i) % 26)}{i}" for i in range(n)]
     hid = [f"hh_{chr(122 - (5 * j) % 26)}{j}" for j in range(count)]
     persons = {pid[i]: {} for i in range(n)}
-    households = {hid[j]: {"parents": [], "children": []} for j in range(count)}
+    households = {hid[j]: {"parents": [], "children": [], "heads": []} for j in range(count)}
     for i in range(n):
-        households[hid[pop["ids"][i]]]["parents" if pop["roles"][i] == 0 else "children"].append(pid[i])
+        households[hid[pop["ids"][i]]][["parents", "children", "heads"][pop["roles"][i]]].append(pid[i])
     for v, p, a in inputs:
         var = sys["vars"][v]
         period = str(rules.mk_period(p))
